@@ -1,7 +1,7 @@
 """Shared definitions: RO_Inv, message shapes, vocabulary (DESIGN.md section 4)."""
 import z3
 from pyvc import logic as L
-from pyvc.logic import Node, Str, null, none_s, text, is_msg, is_int, born, forall_nodes, forall_ints
+from pyvc.logic import Node, Str, null, none_s, text, is_msg, is_int, is_float, is_dt, born, orig, cp, forall_nodes, forall_ints
 from pyvc.values import *
 from pyvc.state import State
 from pyvc.contracts import Contract, Case, LoopSpec, CallCtx
@@ -36,6 +36,17 @@ class View:
         return text(self.H.find(i, self.W.lit('itemID')))
 
 
+def timing_ok(W, H, s):
+    """durations of story element s are numeric where present (precondition of C12/C15: 'numeric durations')"""
+    lit = W.lit
+    md = H.find(s, lit('mosExternalMetadata'))
+    pl = H.find(md, lit('mosPayload'))
+    fs = []
+    for t in ('StoryDuration', 'TextTime', 'MediaTime'):
+        fs.append(Imp(A(md != null, pl != null, H.find(pl, lit(t)) != null), is_float(text(H.find(pl, lit(t))))))
+    return A(*fs)
+
+
 def ro_inv(W, H, root, name='RO_Inv'):
     """representation invariant of a running order (list of named formulas)"""
     lit = W.lit
@@ -56,6 +67,12 @@ def ro_inv(W, H, root, name='RO_Inv'):
          forall_nodes(2, lambda s, i: Imp(A(H.mem(base, s), H.tag(s) == lit('story'), H.mem(s, i), H.tag(i) == lit('item')),
                                           H.find(i, lit('itemID')) != null),
                       patterns=lambda s, i: [z3.MultiPattern(H.mem(base, s), H.mem(s, i))])),
+        ('%s.story_durations_numeric' % name,
+         forall_nodes(1, lambda s: Imp(A(H.mem(base, s), H.tag(s) == lit('story')), timing_ok(W, H, s)),
+                      patterns=lambda s: [H.mem(base, s)])),
+        ('%s.roEdStart_parseable' % name,
+         Imp(A(H.find(base, lit('roEdStart')) != null, text(H.find(base, lit('roEdStart'))) != none_s),
+             is_dt(text(H.find(base, lit('roEdStart')))))),
     ]
     return out
 
